@@ -21,7 +21,7 @@ def parseRisk (now : Int) : Nat → List Int → Option (List RiskB × List Int)
       vaultKey vaultAmount  nrisk (key <position line>)*  amount flag`
     → `ok <16 slots x 7> <bank 16> last_update tokens dailyLimit withdrawnToday lastReset` | `err code` | `panic` -/
 def worldOp (op : String) (a : List Int) : Option String :=
-  if !op.startsWith "wd." then none else
+  if !op.startsWith "wd." || op == "wd.liq" then none else
   let r : Option String := do
     match a with
     | now :: gkey :: gadmin :: grisk :: paused :: pfr :: dl :: wt :: lr :: akey :: agroup :: aauth :: aflags :: rest =>
@@ -62,6 +62,57 @@ def worldOp (op : String) (a : List Int) : Option String :=
               some (showResB (res.map fun o =>
                 s!"{showSlots7 o.slots} {showBank o.books} {o.books.lastUpdate} {o.tokens} {o.window.dailyLimit} {o.window.withdrawnToday} {o.window.lastReset}"))
             | _ => none
+          | _ => none
+        | _ => none
+      | _ => none
+    | _ => none
+  some (r.getD "bad-args")
+
+def parseAcctV (a : List Int) : Option (AcctV × List Int) :=
+  match a with
+  | akey :: agroup :: aauth :: aflags :: rest =>
+    (parseSlots7 16 rest).map fun (slots, r) => ({ key := akey.toNat, group := agroup.toNat, authority := aauth.toNat, flags := aflags.toNat, slots }, r)
+  | _ => none
+
+def parseBankV (a : List Int) : Option (BankV × List Int) :=
+  match a with
+  | bkey :: bgroup :: bvault :: rest =>
+    match parseBank rest with
+    | some (books, last :: rest) =>
+      match parseIr rest with
+      | some (ir, opState :: origFee :: tfBps :: tfMax :: wz :: rest) =>
+        some ({ key := bkey.toNat, group := bgroup.toNat, liquidityVault := bvault.toNat, books := { books with lastUpdate := last },
+                ir, opState, origFee, tfBps, tfMax, weightInitZero := s2b wz }, rest)
+      | _ => none
+    | _ => none
+  | _ => none
+
+/-- `wd.liq now <group 8> <liquidator: 4 + 16x7> <liquidatee: 4 + 16x7> signer <asset bank: 3 + 16 + 1 + 23 + 5> <liab bank: same>
+      nrisk (key <position line>)* amount`
+    → `ok <liquidator 16x7> <liquidatee 16x7> <asset bank 16> last <liab bank 16> last <insurance tokens>` -/
+def worldLiqOp (op : String) (a : List Int) : Option String :=
+  if op != "wd.liq" then none else
+  let r : Option String := do
+    match a with
+    | now :: gkey :: gadmin :: grisk :: paused :: pfr :: dl :: wt :: lr :: rest =>
+      let (lq, rest) ← parseAcctV rest
+      let (le, rest) ← parseAcctV rest
+      match rest with
+      | signer :: rest =>
+        let (ab, rest) ← parseBankV rest
+        let (lb, rest) ← parseBankV rest
+        match rest with
+        | nrisk :: rest =>
+          let (risk, rest) ← parseRisk now nrisk.toNat rest
+          match rest with
+          | [amount] =>
+            let c : LiqCtx := {
+              now,
+              g := { key := gkey.toNat, admin := gadmin.toNat, riskAdmin := grisk.toNat, paused := s2b paused, progFeeRate := pfr,
+                     window := { dailyLimit := dl, withdrawnToday := wt, lastReset := lr } },
+              lq, le, signer := signer.toNat, ab, lb, risk }
+            some (showResB ((World.liquidate c amount).map fun o =>
+              s!"{showSlots7 o.lqSlots} {showSlots7 o.leSlots} {showBank o.assetBooks} {o.assetBooks.lastUpdate} {showBank o.liabBooks} {o.liabBooks.lastUpdate} {o.insuranceTokens}"))
           | _ => none
         | _ => none
       | _ => none
